@@ -15,17 +15,18 @@ Variable d : nat.
 
 (* ---------- PulseSequence.t, PulseSequence.tau ---------- *)
 Definition last_t (ts : list T) : T := last ts (o0 Op).
-(* tau property, branch [self._t is not None]: self.t[-1] *)
-Definition tau_of_t (dts : list T) : T := last_t (times Op dts).
-(* tau property, branch [self._t is None]: self.dt.sum() *)
-Definition tau_of_dt (dts : list T) : T := sumlist Op dts.
-(* the getter: the cached [_t] (None or an array) decides the branch; the value possibly stored by
-   the setter is overwritten on every read *)
-Definition tau_get (cached_t : option (list T)) (dts : list T) : T :=
-  match cached_t with Some ts => last_t ts | None => tau_of_dt dts end.
 (* t property: cached value or 0 :: cumsum dt *)
 Definition t_get (cached_t : option (list T)) (dts : list T) : list T :=
   match cached_t with Some ts => ts | None => times Op dts end.
+(* tau property (since f6ab3ac): always self.t[-1]; reading it caches _t.  The value possibly stored by the
+   setter is overwritten on every read. *)
+Definition tau_of_t (dts : list T) : T := last_t (times Op dts).
+Definition tau_get (cached_t : option (list T)) (dts : list T) : T := last_t (t_get cached_t dts).
+(* dt.sum(): the second branch of the tau property before f6ab3ac (kept for the remark that the two
+   branches agreed over the reals; they did not in floating point) *)
+Definition tau_of_dt (dts : list T) : T := sumlist Op dts.
+Definition tau_get_prefix (cached_t : option (list T)) (dts : list T) : T :=
+  match cached_t with Some ts => last_t ts | None => tau_of_dt dts end.
 
 (* ---------- bookkeeping of the composition functions: new dt and new cached _t ---------- *)
 (* np.tile(dt, G) *)
